@@ -167,7 +167,7 @@ def _resolve_attribute_annotation(  # noqa: C901, PLR0911, PLR0912, PLR0913
                 # check if we can resolve it as generic
                 case parametrized if issubclass(parametrized, Generic):
                     parametrized_type: Any = parametrized.__class_getitem__(  # pyright: ignore[reportUnknownMemberType, reportAttributeAccessIssue]
-                        *(
+                        tuple(  # all type arguments at once, as in Type[A, B]
                             type_parameters.get(
                                 arg.__name__,
                                 arg.__bound__ or Any,
